@@ -1957,3 +1957,205 @@ let rec stmt_prot st p =
 
 let guarded p =
   forallb (fun fd -> snd (stmt_prot fd.f_body [])) p.p_funcs
+
+(** val value_eqb : value -> value -> bool **)
+
+let value_eqb a b =
+  match a with
+  | VNil -> (match b with
+             | VNil -> true
+             | VPtr -> false)
+  | VPtr -> (match b with
+             | VNil -> false
+             | VPtr -> true)
+
+(** val st_eqb : nat list -> store0 -> store0 -> bool **)
+
+let st_eqb vars a b =
+  forallb (fun x -> value_eqb (sget a (VL x)) (sget b (VL x))) vars
+
+(** val st_mem : nat list -> store0 -> store0 list -> bool **)
+
+let st_mem vars a s =
+  existsb (st_eqb vars a) s
+
+(** val st_add : nat list -> store0 -> store0 list -> store0 list **)
+
+let st_add vars a s =
+  if st_mem vars a s then s else a :: s
+
+(** val st_union : nat list -> store0 list -> store0 list -> store0 list **)
+
+let st_union vars s t =
+  fold_right (st_add vars) t s
+
+(** val st_subset : nat list -> store0 list -> store0 list -> bool **)
+
+let st_subset vars s t =
+  forallb (fun a -> st_mem vars a t) s
+
+(** val hvals : store0 -> atom_e -> value list **)
+
+let hvals s = function
+| ANil -> VNil :: []
+| ANew -> VPtr :: []
+| AVar x0 ->
+  (match x0 with
+   | VL x -> (sget s (VL x)) :: []
+   | VG _ -> VNil :: (VPtr :: []))
+
+(** val hcond : store0 -> cond -> bool list **)
+
+let rec hcond s = function
+| COpaque -> true :: (false :: [])
+| CNonNil x0 ->
+  (match x0 with
+   | VL x -> (match sget s (VL x) with
+              | VNil -> false
+              | VPtr -> true) :: []
+   | VG _ -> true :: (false :: []))
+| CDeref (_, x0) ->
+  (match x0 with
+   | VL x ->
+     (match sget s (VL x) with
+      | VNil -> []
+      | VPtr -> true :: (false :: []))
+   | VG _ -> true :: (false :: []))
+| CNot c1 -> map negb (hcond s c1)
+| CAnd (c1, c2) ->
+  flat_map (fun b -> if b then hcond s c2 else false :: []) (hcond s c1)
+| COr (c1, c2) ->
+  flat_map (fun b -> if b then true :: [] else hcond s c2) (hcond s c1)
+
+(** val assign_all :
+    nat list -> store0 -> var -> value list -> store0 list **)
+
+let assign_all _ s x vs =
+  match x with
+  | VL _ -> map (fun v -> sset s x v) vs
+  | VG _ -> s :: []
+
+type hres = { h_norm : store0 list; h_bad : bool }
+
+(** val hloop :
+    nat list -> (store0 list -> hres option) -> cond -> nat -> store0 list ->
+    (store0 list * bool) option **)
+
+let rec hloop vars body c n s =
+  match n with
+  | O -> None
+  | S n' ->
+    let enter = filter (fun s0 -> existsb (fun b -> b) (hcond s0 c)) s in
+    (match body enter with
+     | Some r ->
+       if st_subset vars r.h_norm s
+       then Some (s, r.h_bad)
+       else (match hloop vars body c n' (st_union vars r.h_norm s) with
+             | Some p -> let (s', b) = p in Some (s', ((||) b r.h_bad))
+             | None -> None)
+     | None -> None)
+
+(** val hreach : nat list -> nat -> stmt -> store0 list -> hres option **)
+
+let rec hreach vars fuel st s =
+  match st with
+  | SSkip -> Some { h_norm = s; h_bad = false }
+  | SSeq (s1, s2) ->
+    (match hreach vars fuel s1 s with
+     | Some r1 ->
+       (match hreach vars fuel s2 r1.h_norm with
+        | Some r2 ->
+          Some { h_norm = r2.h_norm; h_bad = ((||) r1.h_bad r2.h_bad) }
+        | None -> None)
+     | None -> None)
+  | SAssign (x, a) ->
+    Some { h_norm =
+      (fold_right (st_add vars) []
+        (flat_map (fun s0 -> assign_all vars s0 x (hvals s0 a)) s)); h_bad =
+      false }
+  | SCall (_, x, _, _) ->
+    Some { h_norm =
+      (match x with
+       | Some y ->
+         fold_right (st_add vars) []
+           (flat_map (fun s0 -> assign_all vars s0 y (VNil :: (VPtr :: [])))
+             s)
+       | None -> s); h_bad = false }
+  | SDeref (_, x) ->
+    Some { h_norm =
+      (match x with
+       | VL _ ->
+         filter (fun s0 -> match sget s0 x with
+                           | VNil -> false
+                           | VPtr -> true) s
+       | VG _ -> s); h_bad = false }
+  | SIf (c, s1, s2) ->
+    let st0 = filter (fun s0 -> existsb (fun b -> b) (hcond s0 c)) s in
+    let sf = filter (fun s0 -> existsb negb (hcond s0 c)) s in
+    (match hreach vars fuel s1 st0 with
+     | Some r1 ->
+       (match hreach vars fuel s2 sf with
+        | Some r2 ->
+          Some { h_norm = (st_union vars r1.h_norm r2.h_norm); h_bad =
+            ((||) r1.h_bad r2.h_bad) }
+        | None -> None)
+     | None -> None)
+  | SWhile (c, body) ->
+    (match hloop vars (hreach vars fuel body) c fuel s with
+     | Some p ->
+       let (sinv, b) = p in
+       Some { h_norm = (filter (fun s0 -> existsb negb (hcond s0 c)) sinv);
+       h_bad = b }
+     | None -> None)
+  | SReturn a ->
+    Some { h_norm = []; h_bad =
+      (existsb (fun s0 -> existsb (fun v -> value_eqb v VNil) (hvals s0 a)) s) }
+
+(** val lvar : var -> nat list **)
+
+let lvar = function
+| VL n -> n :: []
+| VG _ -> []
+
+(** val latom : atom_e -> nat list **)
+
+let latom = function
+| AVar x -> lvar x
+| _ -> []
+
+(** val lcond : cond -> nat list **)
+
+let rec lcond = function
+| COpaque -> []
+| CNonNil x -> lvar x
+| CDeref (_, x) -> lvar x
+| CNot c1 -> lcond c1
+| CAnd (c1, c2) -> app (lcond c1) (lcond c2)
+| COr (c1, c2) -> app (lcond c1) (lcond c2)
+
+(** val lstmt : stmt -> nat list **)
+
+let rec lstmt = function
+| SSkip -> []
+| SSeq (a, b) -> app (lstmt a) (lstmt b)
+| SAssign (x, a) -> app (lvar x) (latom a)
+| SCall (_, x, _, args) ->
+  app (match x with
+       | Some y -> lvar y
+       | None -> []) (flat_map latom args)
+| SDeref (_, x) -> lvar x
+| SIf (c, a, b) -> app (lcond c) (app (lstmt a) (lstmt b))
+| SWhile (c, b) -> app (lcond c) (lstmt b)
+| SReturn a -> latom a
+
+(** val infer_sem : nat -> func -> bool **)
+
+let infer_sem fuel fd =
+  (&&) (Nat.eqb fd.f_nparams (S O))
+    (match hreach (O :: (lstmt fd.f_body)) fuel fd.f_body ((((VL O),
+             VPtr) :: []) :: []) with
+     | Some r ->
+       (&&) (negb r.h_bad) (match r.h_norm with
+                            | [] -> true
+                            | _ :: _ -> false)
+     | None -> false)
